@@ -338,6 +338,221 @@ static int r_rs_interp(const Witness &w) {
     return 0;
 }
 
+// ---------------------------------------------------------------- heap pre-fill (C10: "for all prior heap contents")
+// operator new[] is replaced for the whole driver; with g_fill < 0 (default, every other unit) it is plain malloc.
+#include <new>
+#include <cstring>
+#include <sys/wait.h>
+#include <unistd.h>
+#include <omp.h>
+static int g_fill = -1;
+void* operator new[](std::size_t n) { void *p = std::malloc(n ? n : 1); if (!p) throw std::bad_alloc(); if (g_fill >= 0) std::memset(p, g_fill, n); return p; }
+void operator delete[](void *p) noexcept { std::free(p); }
+void operator delete[](void *p, std::size_t) noexcept { std::free(p); }
+
+// ---------------------------------------------------------------- ruge_stuben::connect
+static int cn_check_once(const Crs &A, float eps_strong, int fill, std::vector<char> &flags_out) {
+    size_t n = A.nrows;
+    std::vector<char> cf(n, 'U'); CrsFlags S;
+    g_fill = fill;
+    RS::connect(A, eps_strong, S, cf);
+    g_fill = -1;
+    flags_out.assign(S.val, S.val + A.ptr[n]);
+    size_t nflag = 0;
+    for (size_t i = 0; i < n; ++i) {
+        double amin = 0;
+        for (ptrdiff_t j = A.ptr[i]; j < A.ptr[i + 1]; ++j) if ((size_t)A.col[j] != i) amin = std::min(amin, A.val[j]);
+        double thr = amin * eps_strong;
+        if (amin == 0 && cf[i] != 'F') FAIL("connect: row " << i << " has no negative off-diagonal coupling but is not marked F");
+        if (amin != 0 && cf[i] != 'U') FAIL("connect: row " << i << " has a negative off-diagonal coupling but cf = " << cf[i]);
+        for (ptrdiff_t j = A.ptr[i]; j < A.ptr[i + 1]; ++j) {
+            int f = S.val[j]; double v = A.val[j];
+            if (f) ++nflag;
+            if (amin == 0) { if (f != 0) FAIL("connect: row " << i << " has no negative off-diagonal coupling, but its strong-connection flag " << j - A.ptr[i] << " is " << f << " (heap pre-fill 0x" << std::hex << fill << std::dec << "): the flag is never written"); continue; }
+            if (f != 0 && f != 1) FAIL("connect: flag (" << i << "," << A.col[j] << ") = " << f << " is neither 0 nor 1");
+            if ((size_t)A.col[j] == i) { if (f) FAIL("connect: the diagonal entry of row " << i << " is flagged strong"); continue; }
+            if (v < thr && !f) FAIL("connect: a(" << i << "," << A.col[j] << ") = " << v << " < eps_strong * min = " << thr << " is not flagged strong");
+            if (v > thr && f) FAIL("connect: a(" << i << "," << A.col[j] << ") = " << v << " > eps_strong * min = " << thr << " is flagged strong");
+        }
+    }
+    if (S.nrows != n || S.ncols != n || S.ptr[0] != 0 || (size_t)S.ptr[n] != nflag) FAIL("connect: transposed pattern has " << S.ptr[n] << " entries, " << nflag << " flags are set");
+    for (size_t c = 0; c < n; ++c) {
+        if (S.ptr[c] > S.ptr[c + 1]) FAIL("connect: transposed pattern: ptr not monotone");
+        std::vector<ptrdiff_t> want, got(S.col + S.ptr[c], S.col + S.ptr[c + 1]);
+        for (size_t i = 0; i < n; ++i) for (ptrdiff_t j = A.ptr[i]; j < A.ptr[i + 1]; ++j) if ((size_t)A.col[j] == c && S.val[j]) want.push_back(i);
+        if (want != got) FAIL("connect: row " << c << " of the transposed pattern does not list exactly the rows strongly connected to " << c);
+    }
+    return 0;
+}
+// the whole setup in a child process: a corrupted heap must not take the driver down
+static int rs_transfer_in_child(const Crs &A, float eps_strong, int fill, std::vector<double> &out) {
+    int fd[2]; if (pipe(fd)) return -1;
+    pid_t pid = fork();
+    if (pid == 0) {
+        close(fd[0]);
+        RS::params prm; prm.eps_strong = eps_strong;
+        g_fill = fill;
+        std::vector<double> r;
+        try { std::shared_ptr<Crs> P, R; std::tie(P, R) = RS(prm).transfer_operators(A);
+              r.push_back((double)P->nrows); r.push_back((double)P->ncols);
+              for (size_t i = 0; i <= P->nrows; ++i) r.push_back((double)P->ptr[i]);
+              for (ptrdiff_t j = 0; j < P->ptr[P->nrows]; ++j) { r.push_back((double)P->col[j]); r.push_back(P->val[j]); } }
+        catch (const error::empty_level &) { r.push_back(-1); }
+        g_fill = -1;
+        size_t m = r.size(); ssize_t wr = write(fd[1], &m, sizeof m); if (m) wr = write(fd[1], &r[0], m * sizeof(double)); (void)wr;
+        _exit(0);
+    }
+    close(fd[1]);
+    size_t m = 0; out.clear();
+    if (read(fd[0], &m, sizeof m) == (ssize_t)sizeof m && m < (1u << 20)) { out.resize(m); size_t got = 0; while (got < m * sizeof(double)) { ssize_t k = read(fd[0], (char*)&out[0] + got, m * sizeof(double) - got); if (k <= 0) break; got += k; } }
+    close(fd[0]);
+    int st = 0; waitpid(pid, &st, 0);
+    return (WIFEXITED(st) && WEXITSTATUS(st) == 0) ? 0 : 1;
+}
+static int cn_check_matrix(const Crs &A, const std::set<float> &es) {
+    const int fills[] = {0x00, 0x01, 0xAA, 0xFF};
+    for (std::set<float>::const_iterator s = es.begin(); s != es.end(); ++s) {
+        std::vector<char> f0;
+        for (int k = 0; k < 4; ++k) {
+            std::vector<char> f;
+            int rc = cn_check_once(A, *s, fills[k], f);
+            if (rc) { std::cout << "[eps_strong = " << *s << "]" << std::endl; return rc; }
+            if (k == 0) f0 = f; else if (f != f0) FAIL("connect: the strong-connection flags depend on the prior heap content (pre-fill 0x00 vs 0x" << std::hex << fills[k] << std::dec << "), eps_strong = " << *s);
+        }
+        std::vector<double> p0;
+        for (int k = 0; k < 4; ++k) {
+            std::vector<double> p;
+            if (rs_transfer_in_child(A, *s, fills[k], p)) FAIL("ruge_stuben::transfer_operators crashed with heap pre-fill 0x" << std::hex << fills[k] << std::dec << " (eps_strong = " << *s << ")");
+            if (k == 0) p0 = p; else if (p != p0) FAIL("ruge_stuben::transfer_operators: P depends on the prior heap content (pre-fill 0x00 vs 0x" << std::hex << fills[k] << std::dec << ")");
+        }
+    }
+    return 0;
+}
+static int r_rs_connect(const Witness &w) {
+    auto A = crs_checked(w, "A"); if (!A) return 3;
+    omp_set_num_threads(1);      // no libgomp thread pool: the child processes forked below must be able to enter parallel regions
+    print_crs("A", *A);
+    std::set<float> es; const float es0[] = {0.25f, 0.5f, 0.1f, 1.0f}; es.insert(es0, es0 + 4);
+    std::vector<double> thr = w.arr("w_thr");
+    for (size_t i = 0; i < A->nrows && i < thr.size(); ++i) {
+        double amin = 0; for (ptrdiff_t j = A->ptr[i]; j < A->ptr[i + 1]; ++j) if ((size_t)A->col[j] != i) amin = std::min(amin, A->val[j]);
+        if (amin != 0 && thr[i] / amin >= 0 && thr[i] / amin <= 4) es.insert((float)(thr[i] / amin));
+    }
+    int rc = cn_check_matrix(*A, es);
+    if (rc) return rc;
+    std::cout << "not reproduced with the witness matrix; canned scenario (a row whose off-diagonal couplings are all positive):" << std::endl;
+    Crs B; B.set_size(4, 4, true);
+    const double D[4][4] = {{4, 1, 1, 0}, {1, 4, -2, -1}, {1, -2, 4, -1}, {0, -1, -1, 4}};
+    for (int i = 0; i < 4; ++i) for (int j = 0; j < 4; ++j) if (D[i][j] != 0) ++B.ptr[i + 1];
+    B.set_nonzeros(B.scan_row_sizes());
+    for (int i = 0, h = 0; i < 4; ++i) for (int j = 0; j < 4; ++j) if (D[i][j] != 0) { B.col[h] = j; B.val[h] = D[i][j]; ++h; }
+    print_crs("B", B);
+    std::set<float> e1; e1.insert(0.25f);
+    return cn_check_matrix(B, e1);
+}
+
+// ---------------------------------------------------------------- smoothed_aggregation::transfer_operators (smoothing)
+#include <amgcl/coarsening/smoothed_aggregation.hpp>
+typedef coarsening::smoothed_aggregation< backend::builtin<double> > SA;
+static int sa_check_once(const Crs &A, float eps_strong, float relax, bool estimate, bool verbose) {
+    size_t n = A.nrows;
+    SA::params prm; prm.aggr.eps_strong = eps_strong; prm.relax = relax; prm.estimate_spectral_radius = estimate; prm.power_iters = 0;
+    std::unique_ptr<PWA> aggr; std::shared_ptr<Crs> T, P, R;
+    try {
+        aggr.reset(new PWA(A, prm.aggr, prm.nullspace.cols));                                   // the given inputs of the unit,
+        T = coarsening::tentative_prolongation<Crs>(n, aggr->count, aggr->id, prm.nullspace, prm.aggr.block_size);   // by the real callees
+        SA sa(prm); std::tie(P, R) = sa.transfer_operators(A);
+    } catch (const error::empty_level &) { return 0; }
+    double omega = relax;
+    if (estimate) omega *= (4.0 / 3) / backend::spectral_radius<true>(A, 0); else omega *= (2.0 / 3);
+    if (verbose) { std::cout << "eps_strong = " << eps_strong << " relax = " << relax << " estimate_spectral_radius = " << estimate << " omega = " << omega << std::endl;
+                   print_vec("strong_connection", aggr->strong_connection); print_crs("P_tent", *T); print_crs("P", *P); }
+    std::string why; size_t m = T->ncols;
+    if (P->nrows != n || P->ncols != m) FAIL("smoothing: P is " << P->nrows << "x" << P->ncols << ", expected " << n << "x" << m);
+    if (!wf(*P, why)) FAIL("smoothing: P is not well-formed: " << why);
+    std::vector<double> Td = dense(*T);
+    for (size_t i = 0; i < n; ++i) {
+        double d = 0; bool has_diag = false;
+        for (ptrdiff_t j = A.ptr[i]; j < A.ptr[i + 1]; ++j) { if ((size_t)A.col[j] == i) has_diag = true; if ((size_t)A.col[j] == i || !aggr->strong_connection[j]) d += A.val[j]; }
+        if (!has_diag || d == 0 || !std::isfinite(1 / d)) continue;       // outside the precondition / singular filtered diagonal
+        std::vector<double> ex(m, 0.0); std::vector<char> pat(m, 0), got(m, 0);
+        for (ptrdiff_t j = A.ptr[i]; j < A.ptr[i + 1]; ++j) {
+            size_t c = A.col[j];
+            if (c != i && !aggr->strong_connection[j]) continue;
+            double mij = (c == i) ? (1 - omega) : (-omega / d) * A.val[j];
+            for (ptrdiff_t q = T->ptr[c]; q < T->ptr[c + 1]; ++q) { ex[T->col[q]] += mij * T->val[q]; pat[T->col[q]] = 1; }
+        }
+        for (ptrdiff_t q = P->ptr[i]; q < P->ptr[i + 1]; ++q) {
+            size_t c = P->col[q];
+            if (got[c]) FAIL("smoothing: row " << i << " of P has column " << c << " twice");
+            got[c] = 1;
+            if (!pat[c]) FAIL("smoothing: row " << i << " of P has an entry in column " << c << " which is not in the pattern of (A_strong + diag) * P_tent");
+            if (!rs_close(P->val[q], ex[c])) FAIL("smoothing: P(" << i << "," << c << ") = " << P->val[q] << ", (I - omega D^-1 A^F) P_tent gives " << ex[c]
+                                                  << " [A^F: weak couplings lumped to the diagonal; omega = " << omega << ", eps_strong = " << eps_strong << "]");
+        }
+        if (got != pat) FAIL("smoothing: row " << i << " of P misses a column of the pattern of (A_strong + diag) * P_tent");
+    }
+    return 0;
+}
+static int r_sa_smooth(const Witness &w) {
+    auto A = crs_checked(w, "A"); if (!A) return 3;
+    // uninterpreted tokens carry no numeric meaning: small distinct numbers keep the witness pattern, diagonal dominant
+    for (size_t i = 0; i < A->nrows; ++i) for (ptrdiff_t j = A->ptr[i]; j < A->ptr[i + 1]; ++j)
+        A->val[j] = ((size_t)A->col[j] == i) ? 8.0 + i : -(1.0 + (j % 3));
+    print_crs("A (witness pattern, numeric values chosen by the driver)", *A);
+    std::vector<std::shared_ptr<Crs> > mats; mats.push_back(A); mats.push_back(rs_tie_scenario(4, 3)); mats.push_back(rs_tie_scenario(3, 1));
+    const float es[] = {0.08f, 0.0f, 0.3f, 0.6f}; const float rl[] = {1.0f, 0.5f};
+    for (size_t k = 0; k < mats.size(); ++k) {
+        if (k == 1) std::cout << "not reproduced with the witness pattern; canned scenarios (anisotropic Laplacians: weak y couplings):" << std::endl;
+        for (int a = 0; a < 4; ++a) for (int b = 0; b < 2; ++b) for (int e = 0; e < 2; ++e) {
+            int rc = sa_check_once(*mats[k], es[a], rl[b], e != 0, false);
+            if (rc) { sa_check_once(*mats[k], es[a], rl[b], e != 0, true); return rc; }
+        }
+    }
+    return 0;
+}
+
+// ---------------------------------------------------------------- ruge_stuben::cfsplit
+// S and cf come from the real connect(); the splitting runs in a child process (an out-of-range bucket index corrupts the heap)
+static int cf_check_once(const Crs &A, float eps_strong) {
+    size_t n = A.nrows;
+    int fd[2]; if (pipe(fd)) return 3;
+    pid_t pid = fork();
+    if (pid == 0) {
+        close(fd[0]);
+        std::vector<char> cf(n, 'U'), r; CrsFlags S;
+        RS::connect(A, eps_strong, S, cf);
+        r = cf;
+        RS::cfsplit(A, S, cf);
+        r.insert(r.end(), cf.begin(), cf.end());
+        ssize_t wr = write(fd[1], r.data(), r.size()); (void)wr;
+        _exit(0);
+    }
+    close(fd[1]);
+    std::vector<char> r(2 * n); size_t got = 0;
+    while (got < 2 * n) { ssize_t k = read(fd[0], &r[0] + got, 2 * n - got); if (k <= 0) break; got += k; }
+    close(fd[0]);
+    int st = 0; waitpid(pid, &st, 0);
+    if (!(WIFEXITED(st) && WEXITSTATUS(st) == 0) || got != 2 * n) FAIL("cfsplit crashed (eps_strong = " << eps_strong << "): memory corruption");
+    std::cout << "eps_strong = " << eps_strong << "  cf after connect: " << std::string(r.begin(), r.begin() + n) << "  after cfsplit: " << std::string(r.begin() + n, r.end()) << std::endl;
+    for (size_t i = 0; i < n; ++i) {
+        if (r[n + i] != 'C' && r[n + i] != 'F') FAIL("cfsplit: variable " << i << " ends up '" << r[n + i] << "', neither C nor F");
+        if (r[i] == 'F' && r[n + i] != 'F') FAIL("cfsplit: variable " << i << " was marked F by connect() but ends up " << r[n + i]);
+    }
+    return 0;
+}
+static int r_rs_cfsplit(const Witness &w) {
+    auto A = crs_checked(w, "A"); if (!A) return 3;
+    omp_set_num_threads(1);
+    // the unit is about patterns: values realise a symmetric-looking M-matrix on the witness pattern
+    for (size_t i = 0; i < A->nrows; ++i) for (ptrdiff_t j = A->ptr[i]; j < A->ptr[i + 1]; ++j) A->val[j] = ((size_t)A->col[j] == i) ? 8.0 : -(1.0 + (j % 2));
+    print_crs("A (witness pattern, numeric values chosen by the driver)", *A);
+    std::vector<std::shared_ptr<Crs> > mats; mats.push_back(A); mats.push_back(rs_tie_scenario(3, 3)); mats.push_back(rs_tie_scenario(5, 4));
+    const float es[] = {0.25f, 0.0f, 0.6f, 1.0f};
+    for (size_t k = 0; k < mats.size(); ++k) for (int a = 0; a < 4; ++a) { int rc = cf_check_once(*mats[k], es[a]); if (rc) return rc; }
+    return 0;
+}
+
 int main(int argc, char **argv) {
     if (argc < 3) return 2;
     std::string unit = argv[1];
@@ -349,6 +564,9 @@ int main(int argc, char **argv) {
     if (unit == "pointwise_remove_small_aggregates") return r_remove_small(w);
     if (unit == "tentative_prolongation_const") return r_tentative(w);
     if (unit == "ruge_stuben_interpolation") return r_rs_interp(w);
+    if (unit == "ruge_stuben_connect") return r_rs_connect(w);
+    if (unit == "ruge_stuben_cfsplit") return r_rs_cfsplit(w);
+    if (unit == "smoothed_aggregation_smoothing") return r_sa_smooth(w);
     std::cout << "no replay for unit " << unit << std::endl;
     return 3;
 }
